@@ -33,7 +33,20 @@ def _expand(payload, sub):
     npre = len(sc['steps'])
     # suffix: first a few steps biased to discarding, then anything
     PL.gen_pipeline(rng, None, payload['ns'], tags=DISCARD_TAGS if rng.random() < 0.7 else None, exclude=OBS_KINDS + ('user',), stats=stats, sc=sc, g=g)
-    obs = ST.GENS[payload['observer']](rng, ST.D({'resources': []}), g) if payload['observer'] not in ('printer',) else {'step': 'printer', 'num_rows': rng.choice([1, 2, 10]), 'resources': None}
+    dpre = ST.D(PL.describe({'tables': sc['tables'], 'steps': sc['steps'][:npre], 'source_kinds': sc.get('source_kinds')}, {'calls': {}}))
+    if payload['observer'] == 'printer':
+        sel, names = ST.selector(rng, dpre) if rng.random() < 0.6 else (None, dpre.names())
+        if isinstance(sel, int):
+            sel = [names[0]]       # printer(resources=<int>) raises KeyError on the current tree: selector forms are C10's business (not applicable here)
+        obs = {'step': 'printer', 'num_rows': rng.choice([1, 2, 10]), 'resources': sel}
+    else:
+        obs = ST.GENS[payload['observer']](rng, dpre, g)
+    # now and then a second file dumper further downstream, in the *other* format
+    if obs['step'] in ('dump_to_path', 'dump_to_zip') and rng.random() < 0.35:
+        other = {'csv': 'json', 'json': 'csv'}[obs.get('format', 'csv')]
+        second = {'step': rng.choice(['dump_to_path', 'dump_to_zip']), 'format': other}
+        second['out'] = g.fresh('out2') if second['step'] == 'dump_to_path' else g.fresh('zip2') + '.zip'
+        sc['steps'].insert(rng.randrange(npre, len(sc['steps']) + 1), second)
     return {'tables': sc['tables'], 'source_kinds': sc.get('source_kinds'), 'prefix': sc['steps'][:npre], 'suffix': sc['steps'][npre:], 'observer': obs, 'gen_stats': stats}
 
 
@@ -136,7 +149,7 @@ class C05(Prop):
     ASSUMPTIONS = ['schemas are compared as (field names, types, order, primary key): serialisation hints that file dumpers add by design (format, decimalChar, ...) are not part of the statement',
                    'dumped csv/json files are decoded with the stdlib only and compared by resource list, row count and provenance-id sequence (typed round-trip is C03)']
     REAL_VS_STUB = {'real': ['all dataflows code'], 'stub': ['printer: header_print/table_print callbacks and a recording wrapper around the module-global tabulate']}
-    PROBES = ['suffix-deletes-resource', 'suffix-filters-rows', 'suffix-joins', 'suffix-concatenates', 'observer-first', 'observer-last', 'empty-resource-at-observer'] + ['obs:' + o for o in OBS_KINDS]
+    PROBES = ['suffix-deletes-resource', 'suffix-filters-rows', 'suffix-joins', 'suffix-concatenates', 'observer-first', 'observer-last', 'empty-resource-at-observer', 'printer-with-selection', 'second-dumper-downstream'] + ['obs:' + o for o in OBS_KINDS]
     TIERS = {'quick': dict(runs=900, wall=100, run_wall=120),
              'thorough': dict(runs=25000, wall=1700, run_wall=300)}
     SHRINK_FROZEN = ('fields', 'gen_stats')
@@ -171,6 +184,8 @@ class C05(Prop):
             k = {'delete_resource': 'suffix-deletes-resource', 'filter_rows': 'suffix-filters-rows', 'join': 'suffix-joins', 'concatenate': 'suffix-concatenates'}.get(sp['step'])
             if k:
                 ctx.probe(k)
+        if any(sp['step'] in ('dump_to_path', 'dump_to_zip') for sp in sc['suffix']):
+            ctx.probe('second-dumper-downstream')
         if not sc['prefix']:
             ctx.probe('observer-first')
         if not sc['suffix']:
@@ -185,7 +200,13 @@ class C05(Prop):
         if schema_view(C['dp']) != schema_view(B['dp']):
             ctx.violation('transparency:schema', obs['step'], 'schemas seen downstream differ with the observer: %s vs %s; %s' % (
                 json.dumps(schema_view(C['dp']))[:400], json.dumps(schema_view(B['dp']))[:400], desc), observer=obs['step'])
-        if C['rows'] != B['rows']:
+        pending = []
+        if C['rows'] != B['rows'] and obs['step'] in ('dump_to_path', 'dump_to_zip') and not A.get('cast_fixed') and numeric_norm(C['rows']) == numeric_norm(B['rows']):
+            # lowest priority (known finding C05-dumper-casts-values): the only difference is float vs Decimal of equal value
+            from .c01 import first_diff
+            pending.append(('transparency:rows', 'dumper-casts-values', 'a file dumper hands the rows on after casting them to the declared types: downstream sees %s; %s' % (
+                first_diff(C['rows'], B['rows']), desc), {'observer': obs['step'], 'numeric_equal': True}))
+        elif C['rows'] != B['rows']:
             from .c01 import first_diff
             ctx.violation('transparency:rows', obs['step'], 'rows seen downstream differ with the observer at %s; %s' % (first_diff(C['rows'], B['rows']), desc), observer=obs['step'])
         # --- oracle 2: completeness, against the materialised output of P
@@ -206,7 +227,10 @@ class C05(Prop):
             p = os.path.join(cdir, obs['out'])
             if not os.path.exists(os.path.join(p, 'datapackage.json')):
                 ctx.violation('completeness:resources', k, 'dump_to_path wrote no datapackage.json; %s' % desc, observer=k)
-            names, ids = read_dump(p)
+            try:
+                names, ids = read_dump(p)
+            except Exception as e:  # noqa
+                ctx.violation('completeness:resources', k, 'the package written by dump_to_path cannot be decoded in the format it declares (%s: %s); %s' % (type(e).__name__, e, desc), observer=k)
             complete(names, ids, 'the dumped package')
         elif k == 'dump_to_zip':
             p = os.path.join(cdir, obs['out'])
@@ -231,6 +255,13 @@ class C05(Prop):
                 ctx.violation('completeness:rows', k, 'rows in the %s file differ from the stream at its position at %s; %s' % (k, first_diff(jsonable(rows), A['rows']), desc), observer=k, content=True)
         elif k == 'printer':
             pr = C['rec']['printer']
+            from .c16 import select
+            sel_names = select(obs.get('resources'), want_names) if len(set(want_names)) == len(want_names) else want_names
+            idx = [i for i, nm in enumerate(want_names) if nm in sel_names]
+            want_names = [want_names[i] for i in idx]
+            want_ids = [want_ids[i] for i in idx]
+            if obs.get('resources') is not None:
+                ctx.probe('printer-with-selection')
             if pr['heads'] != want_names:
                 ctx.violation('completeness:resources', k, 'printer announced %r, the stream at its position has %r; %s' % (pr['heads'], want_names, desc), observer=k)
             for nm, tab, want in zip(want_names, pr['tabs'], want_ids):
@@ -255,6 +286,9 @@ class C05(Prop):
         if discarding:
             ctx.nt(k, [sp['step'] for sp in sc['suffix']], [sp['step'] for sp in sc['prefix']])
         ctx.sample = {'sources': [len(t['rows']) for t in sc['tables']], 'prefix': sc['prefix'], 'observer': obs, 'suffix': sc['suffix']}
+        if pending:
+            c, k_, m, d = pending[0]
+            ctx.violation(c, k_, m, **d)
 
     def focus(self, sc, rec):
         ex = rec.get('extra') or {}
@@ -264,3 +298,17 @@ class C05(Prop):
 
 
 PROP = C05()
+
+
+def numeric_norm(x):
+    """floats and Decimals of equal value compare equal"""
+    import decimal
+    if isinstance(x, dict):
+        if set(x) == {'~f'}:
+            return {'~num': str(decimal.Decimal(repr(float(x['~f']))).normalize())}
+        if set(x) == {'~d'}:
+            return {'~num': str(decimal.Decimal(x['~d']).normalize())}
+        return {k: numeric_norm(v) for k, v in x.items()}
+    if isinstance(x, list):
+        return [numeric_norm(v) for v in x]
+    return x
